@@ -176,8 +176,13 @@ func (v *VerifServer) State() *state.Store { return v.Server.fsm.State() }
 // FSM returns the server's FSM.
 func (v *VerifServer) FSM() *fsm.FSM { return v.Server.fsm }
 
-// LastIndex returns the last raft index applied by the server.
-func (v *VerifServer) LastIndex() uint64 { return v.Server.raft.AppliedIndex() }
+// LastIndex returns the index of the last raft entry of the server. The log's last index is
+// taken into account because raft publishes its applied index concurrently with the FSM
+// goroutine answering the apply future: right after an RPC returned, AppliedIndex may still
+// be one behind what the state store already contains.
+func (v *VerifServer) LastIndex() uint64 {
+	return max(v.Server.raft.AppliedIndex(), v.Server.raft.LastIndex())
+}
 
 func (v *VerifServer) Stop() {
 	if v.Server != nil {
